@@ -15,6 +15,33 @@ type EffectSet struct {
 	heaps        map[string]bool
 	allocs       bool
 	callsUnknown bool // calls function values / interface methods without contract
+	why          string
+}
+
+// argHeaps adds the heaps reachable for writing through a value of type t
+// (one level of pointers/slices).
+func (vc *VC) argHeaps(t types.Type, e *EffectSet, depth int) {
+	if depth > 2 {
+		return
+	}
+	switch u := t.Underlying().(type) {
+	case *types.Pointer:
+		for _, h := range vc.zeroInitHeaps(u.Elem()) {
+			e.heaps[h] = true
+		}
+		if st, ok := u.Elem().Underlying().(*types.Struct); ok {
+			for i := 0; i < st.NumFields(); i++ {
+				vc.argHeaps(st.Field(i).Type(), e, depth+1)
+			}
+		}
+	case *types.Slice:
+		e.heaps[elemHeapName(u.Elem())] = true
+	case *types.Interface:
+		// an interface may hide a pointer: unknown target
+		if depth == 0 && !u.Empty() {
+			return
+		}
+	}
 }
 
 func (e *EffectSet) sorted() []string {
@@ -30,6 +57,7 @@ func (e *EffectSet) union(o *EffectSet) bool {
 	changed := false
 	if o.top && !e.top {
 		e.top = true
+		e.why = o.why
 		changed = true
 	}
 	if o.allocs && !e.allocs {
@@ -59,6 +87,13 @@ var purePackages = map[string]bool{
 	"bytes": true, "sync": true, "sync/atomic": true, "runtime": true, "hash/crc32": true, "encoding/hex": true,
 	"golang.org/x/text/unicode/norm": true, "context": true, "reflect": true, "os/signal": true,
 	"google.golang.org/protobuf/proto": true, "github.com/google/uuid": true, "encoding/base64": true,
+}
+
+// argOnlyPackages wrap the operating system: the only caller-visible memory
+// they write is reachable from their arguments (buffers, result structs).
+var argOnlyPackages = map[string]bool{
+	"os": true, "syscall": true, "internal/poll": true, "golang.org/x/sys/unix": true, "io/fs": true,
+	"internal/syscall/unix": true, "os/exec": true, "os/user": true, "net": true, "internal/testlog": true,
 }
 
 // pureExceptions are functions in otherwise pure packages that write through
@@ -151,8 +186,23 @@ func (vc *VC) localEffects(g *ssa.Function) (*EffectSet, []*ssa.Function) {
 		e.allocs = true
 		return e, nil
 	}
+	if argOnlyPackages[pkgPath] {
+		// operating-system wrappers: their effect on memory the caller can
+		// see is confined to what their arguments reach
+		e.allocs = true
+		for _, p := range g.Params {
+			vc.argHeaps(p.Type(), e, 0)
+		}
+		return e, nil
+	}
 	if len(g.Blocks) == 0 {
-		e.top = true
+		// Functions without a Go body (assembly, runtime intrinsics, system
+		// calls): they can write Go memory only through the pointers and
+		// slices they are handed.
+		e.allocs = true
+		for _, p := range g.Params {
+			vc.argHeaps(p.Type(), e, 0)
+		}
 		return e, nil
 	}
 	var callees []*ssa.Function
@@ -190,11 +240,23 @@ func (vc *VC) localEffects(g *ssa.Function) (*EffectSet, []*ssa.Function) {
 					e.allocs = true
 					e.heaps[elemHeapName(sl.Elem())] = true
 				}
+				if b, ok := in.Type().Underlying().(*types.Basic); ok && b.Kind() == types.UnsafePointer {
+					// memory handed to unsafe code / the kernel: the converted
+					// object and everything reachable from the parameters may
+					// be written
+					vc.argHeaps(in.X.Type(), e, 0)
+					for _, p := range g.Params {
+						vc.argHeaps(p.Type(), e, 0)
+					}
+				}
 			case *ssa.MapUpdate:
 				mt := in.Map.Type()
 				e.heaps[mapHasName(mt)], e.heaps[mapValName(mt)], e.heaps[mapLenName(mt)] = true, true, true
 			case *ssa.Go:
 				e.top = true
+				if e.why == "" {
+					e.why = "go statement in " + name
+				}
 			case ssa.CallInstruction:
 				c := in.Common()
 				if b, ok := c.Value.(*ssa.Builtin); ok {
@@ -219,6 +281,9 @@ func (vc *VC) localEffects(g *ssa.Function) (*EffectSet, []*ssa.Function) {
 					}
 					e.top = true
 					e.callsUnknown = true
+					if e.why == "" {
+						e.why = "interface call " + vc.specs.ifaceName(c) + " in " + name
+					}
 					continue
 				}
 				if callee := c.StaticCallee(); callee != nil {
@@ -228,6 +293,14 @@ func (vc *VC) localEffects(g *ssa.Function) (*EffectSet, []*ssa.Function) {
 				if mc, ok := c.Value.(*ssa.MakeClosure); ok {
 					callees = append(callees, mc.Fn.(*ssa.Function))
 					continue
+				}
+				if u, ok := c.Value.(*ssa.UnOp); ok {
+					if a, ok := u.X.(*ssa.Alloc); ok {
+						if mc := singleClosureStore(a); mc != nil {
+							callees = append(callees, mc.Fn.(*ssa.Function))
+							continue
+						}
+					}
 				}
 				if n := fieldFuncName(c.Value); n != "" {
 					if fc := vc.specs.contractFor(n); fc != nil && (fc.Pure || fc.HasMod) {
@@ -239,6 +312,9 @@ func (vc *VC) localEffects(g *ssa.Function) (*EffectSet, []*ssa.Function) {
 				}
 				e.top = true
 				e.callsUnknown = true
+				if e.why == "" {
+					e.why = "dynamic call in " + name
+				}
 			}
 		}
 	}
